@@ -340,20 +340,45 @@ func (w *failWriter) Write(p []byte) (int, error) {
 }
 
 func failedEncodePrelude(c *lib.Ctx, rng *lib.Rand, idx uint64) {
-	g := lib.GenFile(rng, lib.FileGenOpts{FileType: lib.FileTypes[(idx/3)%uint64(len(lib.FileTypes))].Type, MaxPerSlot: 3, Subset: 3})
+	gen := func() *fit.File {
+		return lib.GenFile(lib.NewRand("C05.prelude", idx), lib.FileGenOpts{FileType: lib.FileTypes[(idx/3)%uint64(len(lib.FileTypes))].Type, MaxPerSlot: 3, Subset: 3})
+	}
+	g := gen()
 	if g == nil {
 		return
 	}
+	order := archOrder(int(idx/2) % 2)
 	var err error
 	var o lib.Outcome
-	if idx%2 == 0 {
+	switch idx % 4 {
+	case 0:
 		w := &failWriter{n: 1 + int(idx/6)%3}
-		o = lib.Guard(func() { err = fit.Encode(w, g, archOrder(int(idx/2)%2)) })
+		o = lib.Guard(func() { err = fit.Encode(w, g, order) })
 		c.Count("prelude_failing_writer", 1)
-	} else {
+	case 2:
+		// a destination that takes k bytes and then fails with a partial count (disk full): k at
+		// the header / first record / trailing CRC boundaries and in between
+		var full bytes.Buffer
+		if g2 := gen(); g2 == nil || fit.Encode(&full, g2, order) != nil {
+			return
+		}
+		n := full.Len()
+		ks := []int{0, 1, 11, 12, 13, 14, 15, n / 2, n - 3, n - 2, n - 1}
+		k := ks[int(idx/12)%len(ks)]
+		if k < 0 || k >= n {
+			k = 0
+		}
+		w := &budgetWriter{budget: k}
+		o = lib.Guard(func() { err = fit.Encode(w, g, order) })
+		c.Count("prelude_writer_full_after_k_bytes", 1)
+		if err == nil && !o.Panicked {
+			c.Violation(full.Bytes(), "Encode returned nil although its destination failed after %d of %d bytes (it received %d)", k, n, w.got)
+			return
+		}
+	default:
 		g.FileId.ProductName = "bad\xff\xfeutf8"
 		var buf bytes.Buffer
-		o = lib.Guard(func() { err = fit.Encode(&buf, g, archOrder(int(idx/2)%2)) })
+		o = lib.Guard(func() { err = fit.Encode(&buf, g, order) })
 		c.Count("prelude_unencodable_string", 1)
 	}
 	c.Eval()
@@ -364,6 +389,21 @@ func failedEncodePrelude(c *lib.Ctx, rng *lib.Rand, idx uint64) {
 	if err == nil {
 		c.Violation(nil, "Encode returned nil although the writer failed or a string was not valid UTF-8")
 	}
+}
+
+// budgetWriter accepts budget bytes in total, then fails with a partial count.
+type budgetWriter struct {
+	budget, got int
+}
+
+func (w *budgetWriter) Write(p []byte) (int, error) {
+	if w.got+len(p) <= w.budget {
+		w.got += len(p)
+		return len(p), nil
+	}
+	n := w.budget - w.got
+	w.got = w.budget
+	return n, lib.ErrInjected
 }
 
 func registerC06() {
